@@ -211,7 +211,61 @@ def p_sched_preempt_blocked(case, v):
     return x_sched_preempt_blocked(copy.deepcopy(case)) if isinstance(case, dict) and "nodes" in case else False
 
 
+def x_sched_reroute_blocked(spec):
+    """F6d: a schedule with preemption='reroute' (or capacitated pre-emptive slots) interrupting a *blocked* customer sends it
+    elsewhere while it stays queued in its old destination's blocked queue.  Excluded by removing finite capacities from networks
+    that contain such a node."""
+    def bad(nd):
+        sv = nd["servers"]
+        return (sv["kind"] == "schedule" and sv.get("preemption") == "reroute") or (sv["kind"] == "slotted" and sv.get("preemption"))
+    if any(bad(nd) for nd in spec["nodes"]) and any(nd.get("cap", "inf") != "inf" for nd in spec["nodes"]):
+        for nd in spec["nodes"]:
+            nd["cap"] = "inf"
+        return True
+    return False
+
+
+def x_sched_preempt_blocked_cc(spec):
+    """F6g: pre-emptive schedule (resume / restart / resample) + finite capacities + class-change matrices + several priority classes:
+    a customer re-served after being interrupted while blocked changes class twice at one node.  Excluded by dropping the class-change
+    matrices of such networks."""
+    if (any(nd["servers"]["kind"] == "schedule" and nd["servers"].get("preemption") for nd in spec["nodes"])
+            and any(nd.get("cap", "inf") != "inf" for nd in spec["nodes"]) and any(nd.get("ccm") for nd in spec["nodes"])
+            and len(set(c.get("priority", 0) for c in spec["classes"])) > 1):
+        for nd in spec["nodes"]:
+            nd.pop("ccm", None)
+        return True
+    return False
+
+
+def p_sched_preempt_blocked_cc(case, v):
+    import copy
+    return x_sched_preempt_blocked_cc(copy.deepcopy(case)) if isinstance(case, dict) and "nodes" in case else False
+
+
+def x_matrix_sched_preempt_blocked(spec):
+    """F6h: MatrixBlocking can only remove the *first* blockage rank of a (node, destination) cell.  When a pre-emptive shift end has
+    interrupted several blocked customers and servers return, they are taken back into service in priority/arrival order, which need
+    not be blocking order, and the wrong rank is removed.  Excluded (MatrixBlocking only) by removing finite capacities from networks
+    with a pre-emptive schedule."""
+    t = spec.get("tracker") or {}
+    if t.get("kind") == "MatrixBlocking" and any(nd["servers"].get("preemption") for nd in spec["nodes"]) \
+            and any(nd.get("cap", "inf") != "inf" for nd in spec["nodes"]):
+        for nd in spec["nodes"]:
+            nd["cap"] = "inf"
+        return True
+    return False
+
+
+def p_matrix_sched_preempt_blocked(case, v):
+    import copy
+    return x_matrix_sched_preempt_blocked(copy.deepcopy(case)) if isinstance(case, dict) and "nodes" in case else False
+
+
 EXCLUSIONS = {
+    "matrix_sched_preempt_blocked": x_matrix_sched_preempt_blocked,
+    "sched_preempt_blocked_cc": x_sched_preempt_blocked_cc,
+    "sched_reroute_blocked": x_sched_reroute_blocked,
     "reuse_stateful": x_reuse_stateful,
     "pause_busy_time_priority": x_pause_busy_time_priority,
     "ps_priorities": x_ps_priorities,
